@@ -50,10 +50,31 @@ func ownPayloads(m *member) (placed [][][]byte, pool [][]byte, err error) {
 	return placed, m.core.TransactionPool(), nil
 }
 
+// faultStore fails the next write of an event created by `own` when armed
+// (a store write error while the node inserts its own new event).
+type faultStore struct {
+	hg.Store
+	own   string
+	armed bool
+	fired int
+}
+
+func (s *faultStore) SetEvent(e *hg.Event) error {
+	if s.armed && e.Creator() == s.own {
+		if _, err := s.Store.GetEvent(e.Hex()); err == nil {
+			return s.Store.SetEvent(e) // an update of a stored event: not the insertion
+		}
+		s.armed = false
+		s.fired++
+		return fmt.Errorf("injected store failure")
+	}
+	return s.Store.SetEvent(e)
+}
+
 func runC05(r *Result, thorough bool) {
-	r.Rule = "G2 runs of real cores (3-5 validators) with submissions of empty, duplicate-content, binary and ordinary transactions to random nodes, pulls truncated by the sync limit (1-5 events) and failing pulls (an undecodable wire event injected into the answer); " +
+	r.Rule = "G2 runs of real cores (3-5 validators) with submissions of empty, duplicate-content, binary and ordinary transactions to random nodes, pulls truncated by the sync limit (1-5 events), failing pulls (an undecodable wire event injected into the answer) and failing self-events (the store refuses the node's own new event while its pool is non-empty); " +
 		"per node and step: accepted transactions (in order) = concatenation of its own events' payloads ++ pool, compared as lists with the Lean pool model; network oracle: every committed transaction was submitted byte for byte, no occurrence is committed twice (counted per content), every node delivers the same transactions. " +
-		"non-trivial: >=1 failed or truncated pull and >=5 submissions including duplicate content"
+		"non-trivial: >=1 failed or truncated pull, >=1 failed self-event and >=5 submissions including duplicate content"
 	rng := rand.New(rand.NewSource(r.Seed))
 	runs := 4
 	if thorough {
@@ -62,7 +83,13 @@ func runC05(r *Result, thorough bool) {
 	c := &Case{ID: "pool"}
 	for ri := 0; ri < runs; ri++ {
 		n := 3 + rng.Intn(3)
-		cl := newCluster(rng, n, 10000, nil)
+		faults := map[int]*faultStore{}
+		cl := newCluster(rng, n, 10000, func(m *member) hg.Store {
+			fs := &faultStore{Store: hg.NewInmemStore(10000), own: m.hex}
+			faults[m.idx] = fs
+			return fs
+		})
+		selfFail := 0
 		led := &txLedger{names: map[string][]int{}, perNode: map[int][]int{}, content: map[int][]byte{}}
 		steps := 250 + rng.Intn(200)
 		failed, truncated, dups := 0, 0, 0
@@ -121,7 +148,18 @@ func runC05(r *Result, thorough bool) {
 				id := led.submit(cl, t, tx)
 				opsLog[t.idx] = append(opsLog[t.idx], fmt.Sprintf("submit:%d", id))
 			}
-			switch rng.Intn(8) {
+			switch rng.Intn(9) {
+			case 8: // the store refuses the node's own new event: addSelfEvent fails, the pool must survive
+				fs := faults[a.idx]
+				ownBefore, _, _ := ownPayloads(a)
+				fs.armed = true
+				err := cl.pull(a, b, -1)
+				fs.armed = false
+				ownAfter, _, _ := ownPayloads(a)
+				if err != nil && len(ownAfter) == len(ownBefore) {
+					selfFail++
+					opsLog[a.idx] = append(opsLog[a.idx], "fail")
+				}
 			case 0: // truncated pull
 				cl.pull(a, b, 1+rng.Intn(5))
 				truncated++
@@ -235,8 +273,9 @@ func runC05(r *Result, thorough bool) {
 			r.Inc("runs_with_uncommitted_leftover", 1)
 		}
 		r.Inc("failed_pulls", failed)
+		r.Inc("failed_self_events", selfFail)
 		r.Inc("truncated_pulls", truncated)
-		r.Count(fmt.Sprintf("run %d %d %d", ri, n, steps), failed+truncated >= 1 && tot >= 5 && dups >= 2)
+		r.Count(fmt.Sprintf("run %d %d %d", ri, n, steps), failed+truncated >= 1 && selfFail >= 1 && tot >= 5 && dups >= 2)
 		cl.close()
 	}
 	if len(c.Ops) > 0 {
